@@ -174,7 +174,7 @@ Effects(s, cx) ==
         ELSE {})
   \cup (IF E("callown") /\ Budget(s)
         THEN UNION {{[op |-> "call", aid |-> a, prep |-> FALSE, ho |-> {o}, hr |-> {}] :
-                       o \in {x \in TopOwners(s) : s.owners[x].aid > a}} : a \in ActorsOf(s)}
+                       o \in {x \in TopOwners(s) : s.owners[x].aid >= a}} : a \in ActorsOf(s)}
         ELSE {})
   \cup (IF E("stop") /\ InActor(cx) THEN {[op |-> "stop"]} ELSE {})
   \cup (IF E("fail") /\ InActor(cx) THEN {[op |-> "fail"]} ELSE {})
